@@ -57,6 +57,10 @@ TEXT = [
     ('lu2-short', 'break', ['C08', 'C07'], UT, "                for i in range(1,d):\n                    dF -= numpy.dot(L.data[d-i,p], U.data[i,p])\n                dF += numpy.dot(w.T, A.data[d,p])\n                dF = numpy.dot(L0inv, numpy.dot(dF, U0inv))\n\n                U.data[d,p] = numpy.dot(numpy.triu(dF, 0), U.data[0,p])\n                L.data[d,p] = numpy.dot(L.data[0,p], numpy.tril(dF, -1))\n\n        return PIV, L, U", "                for i in range(1,d-1):\n                    dF -= numpy.dot(L.data[d-i,p], U.data[i,p])\n                dF += numpy.dot(w.T, A.data[d,p])\n                dF = numpy.dot(L0inv, numpy.dot(dF, U0inv))\n\n                U.data[d,p] = numpy.dot(numpy.triu(dF, 0), U.data[0,p])\n                L.data[d,p] = numpy.dot(L.data[0,p], numpy.tril(dF, -1))\n\n        return PIV, L, U"),
     ('solve-degree-index', 'break', ['C12'], ALG, "tmp[:,:] -= numpy.dot(A_data[k,p,:,:],y_data[d-k,p,:,:])\n                y_data[d,p,:,:] = numpy.linalg.solve(A_data[0,p,:,:],tmp)\n\n        return out\n\n\n    @classmethod\n    def _solve_non_UTPM_A", "tmp[:,:] -= numpy.dot(A_data[k,p,:,:],y_data[D-1-k,p,:,:])\n                y_data[d,p,:,:] = numpy.linalg.solve(A_data[0,p,:,:],tmp)\n\n        return out\n\n\n    @classmethod\n    def _solve_non_UTPM_A"),
     # ---------------------------------------------------------------- tracer / pullback protocol
+    ('dotpb-notranspose', 'break', ['C03'], ALG, "        xbar_data += cls._dot(zbar_data, cls._transpose(y_data), out = xbar_data.copy())", "        xbar_data += cls._dot(zbar_data, y_data, out = xbar_data.copy())"),
+    ('outerpb-notranspose', 'break', ['C03'], ALG, "        ybar_data += cls._dot(cls._transpose(zbar_data), x_data, out = ybar_data.copy())", "        ybar_data += cls._dot(zbar_data, x_data, out = ybar_data.copy())"),
+    ('outer-square', 'break', ['C07'], UT, "            out_shp = x_shp + y_shp[-1:]\n", "            out_shp = x_shp + x_shp[-1:]\n"),
+    ('qrpb-side', 'break', ['C03'], ALG, "        cls._dot( cls._transpose(Qbar_data), Q_data, out = tmp1)", "        cls._dot( Q_data, cls._transpose(Qbar_data), out = tmp1)"),
     ('pbdot-drop-ybar', 'break', ['C03'], ALG, "        ybar_data += cls._dot(cls._transpose(x_data), zbar_data, out = ybar_data.copy())\n", "        pass\n"),
     ('pullback-dead-exit', 'break', ['C03', 'C04', 'C06'], TR, "            # case if the function F has output, e.g. y1 = F(x)\n            args = [F.xbar] + args + [F.x]", "            if F.xbar == 0:\n                return F\n            args = [F.xbar] + args + [F.x]"),
     ('mul-raw-broadcast', 'break', ['C11', 'C02'], UT, "            x_data, y_data = UTPM._broadcast_arrays(self.data, rhs.reshape((1,1)+rhs_shape))\n            return UTPM(x_data * y_data)", "            return UTPM(self.data * rhs)"),
@@ -249,6 +253,12 @@ UNDECIDED_SEEDS = {'C01_d': 'wrong multiplication count in a while loop: E2 does
                    'C01_f': 'value-level change inside an unmodelled construct: the check stops with ANALYSIS-ERROR (exit 2), no violation is named',
                    'C07_g': 'fast path of UTPM.lu2 chosen from the zeroth coefficient only (legitimate control dependence) that returns homogeneous but numerically '
                             'wrong factors: the defining equation L U = P A is numeric content',
+                   'C01_j': 'off-by-one in the scalar n-th derivative formula of hyperu (nthderiv): formula content, C09/C16 are not applicable',
+                   'C03_i': 'pb_lu multiplies with W.T instead of W: both are (N,N) permutation matrices, the side of a transposition of a square matrix is numeric content',
+                   'C07_j': 'misplaced parenthesis in the Pade-13 numerator of expm: coefficient/formula content',
+                   'C13_b': 'UTPM.tile as one numpy.tile call with reps padded by (1,1): same as C10_g - not decided (exit 2)',
+                   'C13_i': 'UTPM.trace as a strided view of a reshape: neither the slice-wise loop nor a whole-array call with evaluable axes - reported as not decided (exit 2)',
+                   'C10_g': 'UTPM.tile as one numpy.tile call on the coefficient array: the alignment of reps with the axes is not evaluated - reported as not decided (exit 2)',
                    'C12_h': 'UTPM.shift rewritten with an index array whose mask admits negative (wrapping) indices: value-level index arithmetic on an array, '
                             'outside the affine index domain; shift(s<0) reads higher orders by design and is not a graded kernel'}
 # neutral patches written against an older commit that fire there for a true reason
